@@ -42,6 +42,10 @@ func (r *Runner) TranslatorValidation(encs []Enc, perEnc int, seed int64) TVResu
 	for i, e := range encs {
 		jobs[i] = Job{Dir: "z80", Harness: "VTV", Params: []int{e.Tbl, e.Op}, Label: "VTV/" + e.String(), KeepPaths: true}
 	}
+	// operator micro-functions: 40 vectors' worth of jobs (each job gets perEnc vectors)
+	for i := 0; i < 40; i++ {
+		jobs = append(jobs, Job{Dir: "z80", Harness: "VMicro", Label: fmt.Sprintf("VMicro/%d", i), KeepPaths: true})
+	}
 	out := r.RunJobs(jobs)
 	rng := rand.New(rand.NewSource(seed + 12345))
 	tmp, err := os.MkdirTemp("", "zsym-tv-")
@@ -72,7 +76,10 @@ func (r *Runner) TranslatorValidation(encs []Enc, perEnc int, seed int64) TVResu
 		vars := collectVars(all...)
 		for k := 0; k < perEnc; k++ {
 			as := &Assign{bv: map[string]uint64{}, arr: map[string]*arrVal{}}
-			rf := &ReplayFile{Dir: "z80", Harness: "VTV", Params: jr.Job.Params, Vals: map[string]uint64{}, Arrays: map[string]ReplayAr{}}
+			rf := &ReplayFile{Dir: "z80", Harness: jr.Job.Harness, Params: jr.Job.Params, Vals: map[string]uint64{}, Arrays: map[string]ReplayAr{}}
+			if rf.Params == nil {
+				rf.Params = []int{}
+			}
 			for _, v := range vars {
 				if v.w >= 0 {
 					x := randVal(rng, v.w)
